@@ -8,10 +8,10 @@ CONSTANTS
   MultiPart = FALSE
   PostUsed = {"link", "interp"}
   ChecksIo = TRUE
-  MaxKinds = 3
+  MaxKinds = 2
   CleanupKept = TRUE
-  PhasesUsed = {"include", "putao", "putc"}
-  KindsUsed = {"ai", "ao", "main"}
+  PhasesUsed = {"putao", "putc"}
+  KindsUsed = {"ao", "main"}
 INVARIANTS TypeOK HonestExit CompleteOnSuccess NoOutputAfterError FailureSurfaces NothingOpenAtSuccess PendingIsReported
 PROPERTY Total
 CHECK_DEADLOCK TRUE
